@@ -15,6 +15,7 @@ from lib import gen2, monitors
 import re
 
 ID = 'C01'
+TECHNIQUE = 'runtime monitor: independent node-entry counter (M1) + probe/effect log, offline threshold and prefix checker over every budget 1..T+2'
 ADDR = re.compile(r'0x[0-9a-f]+')
 RULE = ('programs: (i) type-directed programs of G2 (all node kinds, lambdas driven by map/filter/reduce/sorted) extended with host probes emit(...), host callbacks hm(f, n) and '
         'try_(f, ...) (which swallows the error and lets the program continue); (ii) scoping scenarios with recursive and re-entrant lambdas; (iii) ast_names lambdas with '
